@@ -1239,7 +1239,7 @@ func doWalk(cs *connState, ref *fidRef, names []string, getattr bool) (qids []QI
 	// validate anything since this is always permitted.
 	if len(names) == 0 {
 		var sf File // Temporary.
-		if err := ref.maybeParent().safelyRead(func() (err error) {
+		if err := ref.safelyReadParent(func() (err error) {
 			// The clone calls Walk (and possibly GetAttr) on ref's own
 			// File, which are read operations on ref's path: hold ref's
 			// own node as well. Deeper nodes are always acquired after
